@@ -61,7 +61,12 @@ def gen_case(rng, tier, avoid):
             relabel.append({'op': 'set_sul', 'fid': 'f0', 'prop': 'max_record_length', 'v': 2 * rng.randint(16, 600)})
     if rng.random() < 0.2:
         ops = gen.noise_file(rng) + ops          # process history: another file (other record length) written first
-    return {'scenario': {'env': {'tz': 'UTC'}, 'history': ops}, 'params': {'ocs': ocs, 'prior': prior, 'relabel': relabel}}
+    # one transient I/O error (a single failing open / partial write / close at a seeded event of the write): should the writer
+    # absorb it and return normally, what it produced is still a file produced by a successful write
+    transient = [rng.random(), rng.random(), rng.choice(['write_fail', 'write_fail', 'close_fail', 'open_fail'])] \
+        if rng.random() < 0.35 else None
+    return {'scenario': {'env': {'tz': 'UTC'}, 'history': ops},
+            'params': {'ocs': ocs, 'prior': prior, 'relabel': relabel, 'transient': transient}}
 
 
 def check_case(case, ex):
@@ -118,6 +123,27 @@ def check_case(case, ex):
                 break
         stats['state_sigs'].append('mrl%d|%s|fl%d|seg%d' % (mrl if mrl <= 256 else 999, C.ocs_class(sym), min(nfl, 9),
                                                             min(nseg_multi, 9)))
+        tr = case['params'].get('transient')
+        if tr and k == 0:
+            want = {'write_fail': 'write', 'close_fail': 'close', 'open_fail': 'open'}[tr[2]]
+            evs = [e for e in (st.get('io') or []) if e['k'] == want and (want != 'write' or e['n'] > 1)]
+            if evs:
+                e = evs[int(tr[0] * len(evs)) % len(evs)]
+                flt = {'kind': tr[2], 'at_event': e['i'], 'errno': 28, 'lose': 0}
+                if want == 'write':
+                    flt['partial'] = 1 + int(tr[1] * (e['n'] - 1)) % (e['n'] - 1)
+                sc2, res2 = C.run(case, ex, [C.wop(fid, faults=[flt], **kw)], stats)
+                st2 = C.last_write(res2)
+                if st2 is not None and tr[2] in (st2.get('faults_fired') or []):
+                    C.bump(stats['faults'], tr[2])
+                    if st2['out'] == 'ok' and st2.get('file') is not None:
+                        C.bump(stats['probes'], 'transient_error_absorbed')
+                        v2, _ = I.layout(st2['file'], m.files[fid])
+                        for x in v2:
+                            x['fp'].update(dict(fpx, after_transient=tr[2]))
+                        out.extend(v2)
+                    else:
+                        C.bump(stats['probes'], 'transient_error_raised')
     rl = case['params'].get('relabel')
     if rl:
         # write, change the label, write again: the second file carries the label as configured now
